@@ -153,6 +153,25 @@ def detachAll (ns : List (Nat × NodeEntry)) (ids : List Nat) : List (Nat × Nod
     (fun x => if ids.contains x.1 then (x.1, { x.2 with refs := x.2.refs - 1 }) else x)
   (kept, gone)
 
+/-- one `Option` of a registration call: a registration-policy option for the call's own kind (node
+option to RegisterNode, pipeline option to RegisterPipeline; `own = true`) or for the other kind;
+`pol = .dflt` stands for a nil Option, which `getOpts` skips -/
+structure PolOpt where
+  own : Bool
+  pol : Pol
+  deriving DecidableEq, Repr
+
+/-- `getOpts`: the options are applied in order; the first invalid one fails the whole call, whatever
+follows it; otherwise the last option of the call's own kind decides (none: the default policy) -/
+def effPol : List PolOpt → Pol
+  | [] => .dflt
+  | o :: rest =>
+    if o.pol = .invalid then .invalid
+    else match effPol rest with
+      | .invalid => .invalid
+      | .dflt => if o.own then o.pol else .dflt
+      | p => p
+
 def polValid : Pol → Bool
   | .invalid => false
   | _ => true
